@@ -484,6 +484,8 @@ func runKV(c KVCase, r *runlog.R) error {
 	known := true  // the config is determined by the statement so far
 	var paths [][]string
 	var classes []string
+	applied := map[string]bool{} // arguments merged so far
+	var prev *view               // the data after the previous argument, when asserted
 
 args:
 	for i, arg := range c.Args {
@@ -613,6 +615,16 @@ args:
 		if want.err != nil {
 			classes = append(classes, "data cannot be unpacked (both)")
 		}
+		if st.kind == stSetting {
+			if applied[arg] {
+				classes = append(classes, "again:argument given again verbatim")
+				if prev != nil && !sameView(*prev, want) {
+					classes = append(classes, "again:merging it again changes the data")
+				}
+			}
+			applied[arg] = true
+		}
+		prev = &want
 		stop, err := checkString(fv, want, c.Opts.VarExp, opts, r)
 		if err != nil {
 			return fmt.Errorf("after arg %d %q: %v", i, arg, err)
@@ -758,7 +770,7 @@ func runKVFlagSet(c KVCase, r *runlog.R) error {
 
 var subKV = runlog.Register(&runlog.Sub[KVCase]{
 	Name: "flag-kv",
-	Rule: "1-8 arguments for one NewFlagKeyValue flag driven through Set (5/6) or for flag.ConfigVar in a standard library FlagSet parsed as -E arg -E arg ... (1/6): keys of 1-3 segments over {a,b,c,d,0,1,2} plus odd spellings (empty segments, signs, other bases, blanks, non-ASCII, the index cap), 40% of the keys repeat an earlier one, with '=' or bare, values rendered from a grammar covering every syntax parse.Value documents (numbers, bools, null, bare/quoted strings, comma lists, [..], {..}, nesting, ${..} references), empty values, and malformed values (fixed near-misses, unterminated references, well-formed containers cut at any position) at any position; options PathSep, VarExp (+Resolve), one of the 5 merge policies; autoBool on/off; optional initial config. Oracle: the fold of ucfg.NewFrom(map{key: parse.Value(value)}, opts...) with Merge(.., opts...) from the initial config, compared (canonical dump, or both fail to unpack) after every argument up to the first failing one; Config() keeps its identity (and is the initial config); Set returns that argument's error; Error() is nil before and stays the first error after any further Set/String calls; key= changes nothing and is no error; bare key = true with autoBool (without autoBool the docs are silent: an error is treated as the failing argument, acceptance ends the data assertions); String() is the JSON of the data whenever the data can be unpacked, has no NaN/Inf and no top-level list part. Not asserted: the config after a failure. Discarded: cases in which parse.Value/NewFrom/Merge themselves panic on an argument (C07's subject). Non-trivial: two applied arguments whose key paths are equal or a prefix of one another under a non-default policy, or a failing argument followed by further arguments. Distinct: hash of the case.",
+	Rule: "1-8 arguments for one NewFlagKeyValue flag driven through Set (5/6) or for flag.ConfigVar in a standard library FlagSet parsed as -E arg -E arg ... (1/6): keys of 1-3 segments over {a,b,c,d,0,1,2} plus odd spellings (empty segments, signs, other bases, blanks, non-ASCII, the index cap), 40% of the keys repeat an earlier one (1/12 of those with a value that holds no data: null [] {} [null] {a: null} \"\" ...), 1/8 of the arguments after the first repeat an earlier argument verbatim (classes again:*: how often, and how often merging it again changes the data), with '=' or bare, values rendered from a grammar covering every syntax parse.Value documents (numbers, bools, null, bare/quoted strings, comma lists, [..], {..}, nesting, ${..} references), empty values, and malformed values (fixed near-misses, unterminated references, well-formed containers cut at any position) at any position; options PathSep, VarExp (+Resolve), one of the 5 merge policies; autoBool on/off; optional initial config. Oracle: the fold of ucfg.NewFrom(map{key: parse.Value(value)}, opts...) with Merge(.., opts...) from the initial config, compared (canonical dump, or both fail to unpack) after every argument up to the first failing one; Config() keeps its identity (and is the initial config); Set returns that argument's error; Error() is nil before and stays the first error after any further Set/String calls; key= changes nothing and is no error; bare key = true with autoBool (without autoBool the docs are silent: an error is treated as the failing argument, acceptance ends the data assertions); String() is the JSON of the data whenever the data can be unpacked, has no NaN/Inf and no top-level list part. Not asserted: the config after a failure. Discarded: cases in which parse.Value/NewFrom/Merge themselves panic on an argument (C07's subject). Non-trivial: two applied arguments whose key paths are equal or a prefix of one another under a non-default policy, or a failing argument followed by further arguments. Distinct: hash of the case.",
 	Gen:  genKV,
 	Run:  runKV,
 })
@@ -772,6 +784,8 @@ func TestFlagKV(t *testing.T) { subKV.Check(t, 60000, 3000000) }
 type ColStep struct {
 	Cfg *gen.Tree `json:"cfg,omitempty"`
 	Err string    `json:"err,omitempty"`
+	// Same > 0: the config object given in step Same-1 is given once more (Cfg unused)
+	Same int `json:"same,omitempty"`
 }
 
 // ColCase is a history of Add calls on one collector.
@@ -792,9 +806,14 @@ func runCollector(c ColCase, r *runlog.R) error {
 		if acc, err = newInit(c.Init, opts); err != nil {
 			return err
 		}
-		for _, s := range c.Steps {
+		for i, s := range c.Steps {
 			var cfg *ucfg.Config
-			if s.Cfg != nil {
+			switch {
+			case s.Same > 0 && s.Same <= i:
+				cfg = srcs[s.Same-1]
+			case s.Same != 0:
+				return errors.New("malformed case")
+			case s.Cfg != nil:
 				if cfg, err = ucfg.NewFrom(s.Cfg.Go(), opts...); err != nil {
 					return err
 				}
@@ -832,7 +851,11 @@ func runCollector(c ColCase, r *runlog.R) error {
 			stepErr = errors.New(s.Err)
 		}
 		var mergeErr error
+		var before view
 		if first == nil && stepErr == nil && srcs[i] != nil {
+			if s.Same > 0 {
+				before = viewOf(acc, opts)
+			}
 			if err := uc.Safe("oracle merge", func() error { mergeErr = acc.Merge(srcs[i], opts...); return nil }); err != nil {
 				r.Discard()
 				return nil
@@ -889,6 +912,10 @@ func runCollector(c ColCase, r *runlog.R) error {
 			return fmt.Errorf("after step %d the collector's config differs from merging with the construction options (%s):\n got  %s\n want %s",
 				i, c.Opts.Policy, got, want)
 		}
+		if s.Same > 0 && stepErr == nil && srcs[i] != nil {
+			r.Class("again:config object added again")
+			r.ClassIf(!sameView(before, want), "again:merging it again changes the data")
+		}
 	}
 	if err := sameOptions("GetOptions() after the history", col.GetOptions(), opts); err != nil {
 		return err
@@ -907,7 +934,7 @@ func runCollector(c ColCase, r *runlog.R) error {
 
 var subCol = runlog.Register(&runlog.Sub[ColCase]{
 	Name: "collector",
-	Rule: "cfgutil.NewCollector(initial or nil, opts...) followed by 1-6 Add(cfg, err) calls: cfg a random tree over keys {a,b,c,d} (or nil), err nil or a distinct error, both, or neither. Oracle: Config() is the construction config (or a fresh one) and keeps its identity; before the first error the data equals merging the configs in order with the construction options; Add returns the step's error, Error()/Get() keep the first error; GetOptions() has the length and the behaviour (fixed build/merge/unpack probe) of the construction options. Non-trivial: >=2 configs (counting the initial one) meet under a non-default policy, or an error is followed by further calls. Distinct: hash of the case.",
+	Rule: "cfgutil.NewCollector(initial or nil, opts...) followed by 1-6 Add(cfg, err) calls: cfg a random tree over keys {a,b,c,d} (or nil), err nil or a distinct error, both, or neither; 1/6 of the config steps after the first give the config OBJECT of an earlier step once more (classes again:*). Oracle: Config() is the construction config (or a fresh one) and keeps its identity; before the first error the data equals merging the configs in order with the construction options; Add returns the step's error, Error()/Get() keep the first error; GetOptions() has the length and the behaviour (fixed build/merge/unpack probe) of the construction options. Non-trivial: >=2 configs (counting the initial one) meet under a non-default policy, or an error is followed by further calls. Distinct: hash of the case.",
 	Gen:  genCollector,
 	Run:  runCollector,
 })
@@ -923,6 +950,17 @@ type FileArg struct {
 	Name    string `json:"name"`
 	Content string `json:"content,omitempty"`
 	Missing bool   `json:"missing,omitempty"`
+	// Again > 0: this argument names the file of argument Again-1 once more
+	// (Name is unused). With Rewrite the file is overwritten with Content right
+	// before the argument is given, so the second reading finds other data.
+	Again   int  `json:"again,omitempty"`
+	Rewrite bool `json:"rewrite,omitempty"`
+	// Spell is the way the path is written on the command line: "" dir/name,
+	// "dot" dir/./name, "slash" dir//name, "updown" dir/sub/../name, "rel"
+	// relative to the working directory, "symlink" dir/sl/name -> ../name,
+	// "hardlink" dir/hl/name (second link to the same file), "dirlink"
+	// dir/dl/name with dl -> . ; all of them name the same file.
+	Spell string `json:"spell,omitempty"`
 }
 
 // ExtEntry registers the loader "json" or "yaml" for an extension ("" is the
@@ -938,6 +976,74 @@ type FilesCase struct {
 	Init  *gen.Tree  `json:"init,omitempty"`
 	Exts  []ExtEntry `json:"exts"`
 	Files []FileArg  `json:"files"`
+	// Via "" : NewFlagFiles driven through Set. Via "flagset": the flag is
+	// registered in a standard library FlagSet (ConfigFilesVar with the table,
+	// or - Named - the constructor that has this table built in:
+	// ConfigFilesExtsVar, ConfigYAMLFilesVar, ConfigJSONFilesVar) and the
+	// arguments are parsed as -c path -c path ...
+	Via   string `json:"via,omitempty"`
+	Named bool   `json:"named,omitempty"`
+}
+
+// target is the index of the argument that introduced the file argument i names.
+func (c FilesCase) target(i int) int {
+	for n := 0; n <= len(c.Files) && c.Files[i].Again > 0; n++ {
+		i = c.Files[i].Again - 1
+	}
+	return i
+}
+
+func (c FilesCase) wellFormed() bool {
+	for i, f := range c.Files {
+		if f.Again < 0 || f.Again > i {
+			return false
+		}
+	}
+	return true
+}
+
+var sep = string(filepath.Separator)
+
+// spellPath writes the path of dir/name in the requested spelling and creates
+// the links the spelling needs. If a link cannot be made the plain path is used.
+func spellPath(dir, name, how string) string {
+	plain := filepath.Join(dir, name)
+	switch how {
+	case "dot":
+		return dir + sep + "." + sep + name
+	case "slash":
+		return dir + sep + sep + name
+	case "updown":
+		if os.MkdirAll(filepath.Join(dir, "sub"), 0o755) == nil {
+			return dir + sep + "sub" + sep + ".." + sep + name
+		}
+	case "rel":
+		if wd, err := os.Getwd(); err == nil {
+			if rel, err := filepath.Rel(wd, plain); err == nil {
+				return rel
+			}
+		}
+	case "symlink":
+		l := filepath.Join(dir, "sl", name)
+		if os.MkdirAll(filepath.Dir(l), 0o755) == nil {
+			if err := os.Symlink(filepath.Join("..", name), l); err == nil || os.IsExist(err) {
+				return l
+			}
+		}
+	case "hardlink":
+		l := filepath.Join(dir, "hl", name)
+		if os.MkdirAll(filepath.Dir(l), 0o755) == nil {
+			if err := os.Link(plain, l); err == nil || os.IsExist(err) {
+				return l
+			}
+		}
+	case "dirlink":
+		l := filepath.Join(dir, "dl")
+		if err := os.Symlink(".", l); err == nil || os.IsExist(err) {
+			return filepath.Join(l, name)
+		}
+	}
+	return plain
 }
 
 type loaderCall struct {
@@ -955,7 +1061,7 @@ func realLoader(kind string) flag.FileLoader {
 }
 
 func runFiles(c FilesCase, r *runlog.R) error {
-	if len(c.Files) == 0 {
+	if len(c.Files) == 0 || !c.wellFormed() {
 		r.Discard()
 		return nil
 	}
@@ -967,7 +1073,7 @@ func runFiles(c FilesCase, r *runlog.R) error {
 	}
 	defer os.RemoveAll(dir)
 	for _, f := range c.Files {
-		if f.Missing {
+		if f.Missing || f.Again > 0 {
 			continue
 		}
 		if err := os.WriteFile(filepath.Join(dir, f.Name), []byte(f.Content), 0o644); err != nil {
@@ -1003,6 +1109,9 @@ func runFiles(c FilesCase, r *runlog.R) error {
 		}
 		expect[e.Ext] = i // a later entry for the same extension replaces the earlier one, as in the map
 	}
+	if c.Via == "flagset" {
+		return runFilesFlagSet(c, r, dir, opts, initFlag, acc, table, expect, &calls)
+	}
 	var fv *flag.FlagValue
 	if err := uc.Safe("NewFlagFiles", func() error { fv = flag.NewFlagFiles(initFlag, table, opts...); return nil }); err != nil {
 		return err
@@ -1019,8 +1128,16 @@ func runFiles(c FilesCase, r *runlog.R) error {
 	firstMsg := ""
 	loaded := 0
 	var classes []string
+	given := map[int][]string{} // target -> the spellings it was given in so far
 	for i, f := range c.Files {
-		path := filepath.Join(dir, f.Name)
+		tgt := c.target(i)
+		f.Name = c.Files[tgt].Name
+		if f.Again > 0 && f.Rewrite {
+			if err := os.WriteFile(filepath.Join(dir, f.Name), []byte(f.Content), 0o644); err != nil {
+				return fmt.Errorf("harness: %v", err)
+			}
+		}
+		path := spellPath(dir, f.Name, f.Spell)
 		if failedAt >= 0 {
 			if err := uc.Safe("Set", func() error { _ = fv.Set(path); return nil }); err != nil {
 				return fmt.Errorf("file %d %q (after the failure of file %d): %v", i, f.Name, failedAt, err)
@@ -1036,7 +1153,7 @@ func runFiles(c FilesCase, r *runlog.R) error {
 			continue
 		}
 		// the definition: loader by extension, else the "" entry, else an error
-		ext := filepath.Ext(f.Name)
+		ext := filepath.Ext(path)
 		entry, ok := expect[ext]
 		how := "ext:" + ext
 		if !ok {
@@ -1045,6 +1162,10 @@ func runFiles(c FilesCase, r *runlog.R) error {
 		}
 		var want *ucfg.Config
 		var wantErr error
+		var before view
+		if f.Again > 0 {
+			before = viewOf(acc, opts)
+		}
 		if ok {
 			if err := uc.Safe("oracle", func() error {
 				want, wantErr = realLoader(c.Exts[entry].Loader)(path, opts...)
@@ -1118,6 +1239,38 @@ func runFiles(c FilesCase, r *runlog.R) error {
 			return fmt.Errorf("file %d %q: Error() = %v although no file failed", i, f.Name, err)
 		}
 		wantV, gotV := viewOf(acc, opts), viewOf(fv.Config(), opts)
+		classes = append(classes, "spell:"+map[bool]string{true: "plain", false: f.Spell}[path == filepath.Join(dir, f.Name)])
+		if f.Again > 0 {
+			classes = append(classes, "again:file named again and loaded")
+			same := false
+			for _, g := range given[tgt] {
+				same = same || g == path
+			}
+			if same {
+				classes = append(classes, "again:in a spelling used before")
+			} else {
+				classes = append(classes, "again:in a new spelling")
+			}
+			if f.Rewrite {
+				classes = append(classes, "again:rewritten in between")
+			}
+			if !sameView(before, wantV) {
+				if f.Rewrite {
+					classes = append(classes, "again:merging the rewritten file changes the data")
+				} else {
+					classes = append(classes, "again:merging it again changes the data")
+				}
+			}
+		}
+		given[tgt] = append(given[tgt], path)
+		if f.Again == 0 {
+			for j := 0; j < i; j++ {
+				if o := c.Files[j]; o.Again == 0 && !o.Missing && o.Content == f.Content && o.Content != "" {
+					classes = append(classes, "again:another file with the content of an earlier one")
+					break
+				}
+			}
+		}
 		if isPanic(gotV.err) && !isPanic(wantV.err) {
 			return fmt.Errorf("file %d %q: %v", i, f.Name, gotV.err)
 		}
@@ -1137,6 +1290,7 @@ func runFiles(c FilesCase, r *runlog.R) error {
 		}
 	}
 	c.Opts.classes(r)
+	r.Class("via=set")
 	for _, l := range classes {
 		r.Class(l)
 	}
@@ -1150,9 +1304,185 @@ func runFiles(c FilesCase, r *runlog.R) error {
 	return nil
 }
 
+// builtinTable reports which registering constructor has the case's extension
+// table built in ("" if none).
+func builtinTable(exts []ExtEntry) string {
+	key := ""
+	for _, e := range exts {
+		key += e.Ext + "=" + e.Loader + ";"
+	}
+	switch key {
+	case ".json=json;.yaml=yaml;.yml=yaml;":
+		return "ConfigFilesExtsVar"
+	case "=yaml;":
+		return "ConfigYAMLFilesVar"
+	case "=json;":
+		return "ConfigJSONFilesVar"
+	}
+	return ""
+}
+
+// runFilesFlagSet gives the same arguments to a file flag registered in a
+// standard library FlagSet. The fold is computed first (Rewrite is not
+// applicable here and ignored), then the command line is parsed once.
+func runFilesFlagSet(c FilesCase, r *runlog.R, dir string, opts []ucfg.Option, initFlag, acc *ucfg.Config,
+	table map[string]flag.FileLoader, expect map[string]int, calls *[]loaderCall) error {
+	wantBehav := behaviour(opts)
+	failedAt := -1
+	var failErr error // nil: no loader for the file
+	loaded, again, againChanges := 0, 0, 0
+	paths := make([]string, len(c.Files))
+	entries := make([]int, len(c.Files))
+	for i, f := range c.Files {
+		name := c.Files[c.target(i)].Name
+		paths[i] = spellPath(dir, name, f.Spell)
+	}
+	for i, f := range c.Files {
+		ext := filepath.Ext(paths[i])
+		entry, ok := expect[ext]
+		if !ok {
+			entry, ok = expect[""]
+		}
+		if !ok {
+			failedAt = i
+			break
+		}
+		entries[i] = entry
+		var wantErr error
+		var before view
+		if f.Again > 0 {
+			before = viewOf(acc, opts)
+		}
+		if err := uc.Safe("oracle", func() error {
+			want, err := realLoader(c.Exts[entry].Loader)(paths[i], opts...)
+			if err == nil && want != nil {
+				err = acc.Merge(want, opts...)
+			}
+			wantErr = err
+			return nil
+		}); err != nil {
+			r.Discard()
+			return nil
+		}
+		if wantErr != nil {
+			failedAt, failErr = i, wantErr
+			break
+		}
+		loaded++
+		if f.Again > 0 {
+			again++
+			if !sameView(before, viewOf(acc, opts)) {
+				againChanges++
+			}
+		}
+	}
+
+	set := goflag.NewFlagSet("c19", goflag.ContinueOnError)
+	set.SetOutput(io.Discard)
+	set.Usage = func() {}
+	ctor := "ConfigFilesVar"
+	if b := builtinTable(c.Exts); c.Named && b != "" {
+		ctor = b
+	}
+	var fv *flag.FlagValue
+	var parseErr error
+	if err := uc.Safe(ctor+"/Parse", func() error {
+		switch ctor {
+		case "ConfigFilesExtsVar":
+			fv = flag.ConfigFilesExtsVar(set, initFlag, "c", "files", opts...)
+		case "ConfigYAMLFilesVar":
+			fv = flag.ConfigYAMLFilesVar(set, initFlag, "c", "files", opts...)
+		case "ConfigJSONFilesVar":
+			fv = flag.ConfigJSONFilesVar(set, initFlag, "c", "files", opts...)
+		default:
+			fv = flag.ConfigFilesVar(set, initFlag, "c", "files", table, opts...)
+		}
+		argv := make([]string, 0, 2*len(paths))
+		for _, p := range paths {
+			argv = append(argv, "-c", p)
+		}
+		parseErr = set.Parse(argv)
+		return nil
+	}); err != nil {
+		return err
+	}
+	if fv == nil || fv.Config() == nil {
+		return fmt.Errorf("%s returned no flag value / config", ctor)
+	}
+	if initFlag != nil && fv.Config() != initFlag {
+		return fmt.Errorf("%s: Config() is not the initial config the files are documented to be merged into", ctor)
+	}
+	if ctor == "ConfigFilesVar" {
+		// every argument up to the first failing one reached its loader, in order, with the flag's options
+		n := len(c.Files)
+		if failedAt >= 0 {
+			n = failedAt
+			if failErr != nil {
+				n++
+			}
+		}
+		j := 0
+		for i := 0; i < n; i++ {
+			for j < len(*calls) && ((*calls)[j].entry != entries[i] || (*calls)[j].path != paths[i]) {
+				j++
+			}
+			if j == len(*calls) {
+				return fmt.Errorf("argument %d %q: loader #%d (registered for %q) was not called for it; %d loader calls for %d arguments",
+					i, paths[i], entries[i], c.Exts[entries[i]].Ext, len(*calls), len(paths))
+			}
+			if call := (*calls)[j]; call.nopts != len(opts) || call.behav != wantBehav {
+				return fmt.Errorf("argument %d %q: the loader did not receive the flag's options: %d options behaving like %s, want %d behaving like %s",
+					i, paths[i], call.nopts, call.behav, len(opts), wantBehav)
+			}
+			j++
+		}
+	}
+	switch {
+	case failedAt >= 0:
+		// file flags postpone error checking: Parse may succeed; Error() must report the failure
+		if fv.Error() == nil {
+			return fmt.Errorf("argument %d %q fails (%s), Error() is nil after Parse", failedAt, paths[failedAt], errText(failErr))
+		}
+		if failErr != nil && !strings.Contains(fv.Error().Error(), failErr.Error()) {
+			return fmt.Errorf("Error() = %q, the error of the first failing argument %d %q is %q", fv.Error(), failedAt, paths[failedAt], failErr)
+		}
+		if parseErr != nil && failErr != nil && !strings.Contains(parseErr.Error(), failErr.Error()) {
+			return fmt.Errorf("Parse returned %q, the error of the first failing argument %d %q is %q", parseErr, failedAt, paths[failedAt], failErr)
+		}
+	default:
+		if parseErr != nil {
+			return fmt.Errorf("Parse failed with %v, every file can be loaded and merged", parseErr)
+		}
+		if err := fv.Error(); err != nil {
+			return fmt.Errorf("Error() = %v although no file failed", err)
+		}
+		wantV, gotV := viewOf(acc, opts), viewOf(fv.Config(), opts)
+		if isPanic(gotV.err) && !isPanic(wantV.err) {
+			return gotV.err
+		}
+		if !sameView(gotV, wantV) {
+			return fmt.Errorf("%s: after parsing -c %s the flag's config differs from merging the loaded files (%s):\n got  %s\n want %s",
+				ctor, strings.Join(paths, " -c "), c.Opts.Policy, gotV, wantV)
+		}
+		if _, err := checkString(fv, wantV, c.Opts.VarExp, opts, r); err != nil {
+			return err
+		}
+	}
+	c.Opts.classes(r)
+	r.Class("via=flagset:" + ctor)
+	r.ClassIf(c.Init != nil, "initial config")
+	r.ClassIf(failedAt >= 0, "some file fails")
+	r.ClassIf(again > 0, "again:file named again and loaded")
+	r.ClassIf(againChanges > 0, "again:merging it again changes the data")
+	multi := c.Opts.Policy != model.Default && (loaded >= 2 || (loaded >= 1 && c.Init != nil))
+	r.ClassIf(multi, "nt:two configs meet under a non-default policy")
+	r.NonTrivialIf(multi)
+	return nil
+}
+
 var subFiles = runlog.Register(&runlog.Sub[FilesCase]{
 	Name: "flag-files",
-	Rule: "1-5 file arguments for one NewFlagFiles flag; files (JSON, block YAML, truncated or malformed text, empty, missing) are written under the run's work directory; names combine bases with inner dots and the extensions .json .yaml .yml .txt .JSON .conf .jsonx or none; extension table one of 7 (the ConfigFilesExts table, yaml/json fallback only, extension plus fallback, single entry, empty, custom) built from recording wrappers around json/yaml.NewConfigWithFile; options as in flag-kv. Oracle: the loader registered for filepath.Ext(name), else the \"\" entry, else an error, is the one called, with the file's path and with options that have the length and behaviour of the flag's; the data equals merging loader(path, opts...) in order with Merge(.., opts...) up to the first failing file; Error() reports that file's error and keeps it; String() is the JSON of the data. Non-trivial: >=2 configs (counting the initial one) meet under a non-default policy, or a failing file is followed by further files. Distinct: hash of the case.",
+	Rule: "1-5 file arguments for one NewFlagFiles flag driven through Set (4/5), or for a file flag registered in a standard library FlagSet and parsed as -c path -c path ... (1/5: ConfigFilesVar with the table, or the constructor that has the table built in: ConfigFilesExtsVar/ConfigYAMLFilesVar/ConfigJSONFilesVar); files (JSON, block YAML, top-level lists, documents without data such as null {} [] ~ or a comment, truncated or malformed text, empty, missing) are written under the run's work directory; names combine bases with inner dots and the extensions .json .yaml .yml .txt .JSON .conf .jsonx or none; 40% of the arguments after the first name the file of an earlier argument AGAIN (any earlier one, so A,A and A,B,A and longer patterns; 1/4 of these with the file rewritten in between), 10% of the new files copy the content of an earlier file; 3/8 of all arguments spell their path in another way that names the same file (dir/./name, dir//name, dir/sub/../name, relative to the working directory, through a symbolic link, a hard link, a symlinked directory); extension table one of 7 (the ConfigFilesExts table, yaml/json fallback only, extension plus fallback, single entry, empty, custom) built from recording wrappers around json/yaml.NewConfigWithFile; options as in flag-kv. Oracle: for EVERY argument, also one given before, the loader registered for filepath.Ext(path), else the \"\" entry, else an error, is the one called, with the path as given and with options that have the length and behaviour of the flag's; the data equals merging loader(path, opts...) (read at the time of the argument) in order with Merge(.., opts...) up to the first failing file; Error() reports that file's error and keeps it; String() is the JSON of the data. Through a FlagSet the same is asserted once after Parse (loader calls as an ordered subsequence; Parse may or may not report a postponed file error). Classes again:* count files named again, in a spelling used before or a new one, and how often merging the file again changes the data (which is when reading a file only once would be visible). Non-trivial: >=2 configs (counting the initial one) meet under a non-default policy, or a failing file is followed by further files. Distinct: hash of the case.",
 	Gen:  genFiles,
 	Run:  runFiles,
 })
